@@ -428,7 +428,7 @@ def run_family_r(chk: Check, tier: str) -> None:
     from harness import corpus
     widths = (88, 30, 0) if tier == "quick" else (88, 60, 40, 30, 20, 12, 0, -1)
     # the 'tags' document is C06's subject: flowmark deliberately re-separates a list from the tag lines that enclose it
-    jobs = [(n, x, dict(width=w, semantic=sem, cleanups=False)) for n, x in corpus.RICH if n != "tags" for w in widths for sem in (False, True)]
+    jobs = [(n, x, dict(width=w, semantic=sem, cleanups=False)) for n, x in corpus.RICH + corpus.FINDING_DOCS if n != "tags" for w in widths for sem in (False, True)]
     traces, metas = [], {}
     for tid, (job, r) in enumerate(zip(jobs, pmap(eval_r, jobs, chunksize=10)), 1):
         chk.evaluations += 1
@@ -452,6 +452,9 @@ def run_family_r(chk: Check, tier: str) -> None:
             if "D56" in chk.open_findings and _corpus.d56_trigger(m["src"]) and not any(s.startswith("fndef:1(") for s in t["tm_in"]) \
                     and any(s.startswith("fndef:1(") for s in t["tm_out"]):
                 chk.known_finding("D56", m)
+                continue
+            if "D57" in chk.open_findings and _corpus.d57_trigger(m["src"]):
+                chk.known_finding("D57", m)
                 continue
             a, b = (t["tm_in"], t["tm_out"]) if dm else (t["ti_in"], t["ti_out"])
             d = dm or di
